@@ -1,7 +1,7 @@
 """Core E — broker (C01, C02, C07, C08, C09, C10, C11): oracle on event lines"""
 import re, binascii, itertools
 from collections import Counter
-from .props import Prop, Run, register, COMMON_TRUSTED, eq_lines
+from .props import Prop, Run, register, COMMON_TRUSTED, XLATE_TRUSTED, eq_lines
 
 GROUP = re.compile(r'(cb?\d+)\[([^\]]*)\]')
 
@@ -281,4 +281,5 @@ register(Prop('C05', 'Mqtt.Properties.C05', ['broker'],
               unspecified=overlap_episode,
               classes={'empty_level': has_empty_level},
               assumptions=C05_ASSUMPTIONS, trusted=COMMON_TRUSTED + [
-                  "regenerated facts: framing limits (l > 4, cnt from 2 to 5), ring size, deferred recover in handleConnection/processor, non-fatal processIncoming errors do not end the processor, packet-type and codec tables"]))
+                  "regenerated facts: framing limits (l > 4, cnt from 2 to 5), ring size, deferred recover in handleConnection/processor, non-fatal processIncoming errors do not end the processor, packet-type and codec tables",
+                  XLATE_TRUSTED]))
